@@ -100,6 +100,10 @@ SELF_CASES = [
     ("St", "&self", "REJECT", "R3 reference to / box of a struct"),
     ("St", "&mut self", "REJECT", "R3 reference to / box of a struct"),
     ("En", "self", "ACCEPT", "A self enum by value"),
+    # enums cross by value like structs (a `&En` parameter is refused with "found &T in input where T is a custom type, but not
+    # opaque"); every backend declares an enum receiver by value while the macro compiles `&self` to a pointer
+    ("En", "&self", "REJECT", "R3 reference to / box of a struct (enum receiver behind a reference)"),
+    ("En", "&mut self", "REJECT", "R3 reference to / box of a struct (enum receiver behind a reference)"),
     ("OutSt", "self", "REJECT", "R2 out-struct in input"),
     ("OutSt", "&self", "REJECT", "R3 reference to / box of a struct"),
 ]
@@ -177,6 +181,15 @@ def lifetime_rules(rep, hirx, wd, st, tier):
         src = "#[diplomat::bridge]\nmod ffi {\n%s\n    impl Op { pub fn f%s(%s) -> %s { unimplemented!() } }\n}\n" % (G.PRELUDE, lt, args, ret)
         items.append({"id": len(items), "src": src})
         meta.append(("ACCEPT", "A named lifetimes in return", "fn f%s(%s) -> %s" % (lt, args, ret), "named|%s|%s" % (args, ret), src, "Op::f"))
+    # DiplomatWrite next to a success type: the written string IS the success value, so only (), Result<(), E>, Option<()> fit
+    for ret, verdict in (("()", "ACCEPT"), ("Result<(), En>", "ACCEPT"), ("Result<(), ()>", "ACCEPT"), ("Option<()>", "ACCEPT"),
+                         ("u8", "REJECT"), ("St", "REJECT"), ("Box<Op>", "REJECT"), ("Result<u8, ()>", "REJECT"), ("Result<St, En>", "REJECT"),
+                         ("Option<u8>", "REJECT"), ("Option<Box<Op>>", "REJECT"), ("En", "REJECT")):
+        for args in ("&self, w: &mut DiplomatWrite", "x: u8, w: &mut DiplomatWrite"):
+            src = "#[diplomat::bridge]\nmod ffi {\n%s\n    impl Op { pub fn f(%s) -> %s { unimplemented!() } }\n}\n" % (G.PRELUDE, args, ret)
+            items.append({"id": len(items), "src": src})
+            meta.append((verdict, "R7 DiplomatWrite next to a success type other than unit" if verdict == "REJECT" else "A write-out method",
+                         "fn f(%s) -> %s" % (args, ret), "write-ret|%s|%s" % (args.split(",")[0], ret), src, "Op::f"))
     res = _hirx(hirx, wd, "lts", items)
     for (verdict, rule, what, shape, src, ctx), r in zip(meta, res):
         _judge(rep, st, verdict, rule, r, what, shape, {"source": src, "spec": verdict, "rule": rule}, ctx_expected=ctx)
